@@ -46,6 +46,9 @@ class DeepONetSingleModuleCondition(Condition):
             > 0
         )
 
+        if self.input_sampler.is_adaptive:
+            self.last_unreduced_loss = None
+
     def forward(self, device="cpu", iteration=None):
         # 1) if necessary, sample input function and evaluate branch net
         self.net._forward_branch(
@@ -91,7 +94,8 @@ class DeepONetSingleModuleCondition(Condition):
         )
 
         if self.input_sampler.is_adaptive:
-            self.last_unreduced_loss = unreduced_loss
+            # one value per sampled point: the loss summed over the input functions
+            self.last_unreduced_loss = torch.sum(unreduced_loss, dim=0)
 
         return self.reduce_fn(unreduced_loss)
 
